@@ -120,3 +120,17 @@ if not m:
 else:
     extra_text.append("Definition C16_RECVMAX_COUNTS_CONTROL : bool := %s.  (* ws_read_cb: recvmax test not restricted to data frames *)"
                       % ("false" if re.search(r"0x0?8", m.group(1)) else "true"))
+# http_rd_buf, HTTP_RD_REQ: is the read buffer compacted before it is tested for being full?
+_hc = src("src/supplemental/http/http_conn.c")
+m = re.search(r"case HTTP_RD_REQ:(.*?)case HTTP_RD_RES:", _hc, re.S)
+if not m or "http_buf_pull_up(conn);" not in m.group(1) or "conn->rd_put == conn->bufsz" not in m.group(1):
+    missing.append("HTTP_RD_REQ buffer policy (pull-up and full test) in http_conn.c")
+else:
+    _b = m.group(1)
+    extra_text.append("Definition C16_RDBUF_PULLUP_FIRST : bool := %s.  (* http_rd_buf REQ: http_buf_pull_up precedes the rd_put == bufsz test *)"
+                      % ("true" if _b.index("http_buf_pull_up(conn);") < _b.index("conn->rd_put == conn->bufsz") else "false"))
+m = re.search(r"case HTTP_RD_RES:(.*?)case HTTP_RD_CHUNK:", _hc, re.S)
+if not m or not re.search(r"http_buf_pull_up\(conn\);.*iov1\.iov_len == 0\) \{\s*return \(NNG_EMSGSIZE\);", m.group(1), re.S):
+    missing.append("HTTP_RD_RES buffer policy (pull-up, EMSGSIZE when full) in http_conn.c")
+if 'strcpy((char *) conn->buf, "NNG-DISCARD: X");' not in _hc:
+    missing.append("NNG-DISCARD placeholder in http_conn.c")
